@@ -130,10 +130,17 @@ def property_theorems(pid: str) -> list[str]:
     return [prefix + n for n in re.findall(r"^theorem\s+(\S+)", src, flags=re.M)]
 
 
-def audit(pid: str, log: list[str]) -> dict:
-    """#print axioms for every property theorem of `pid`; returns obligations/discharged."""
+def audit(pid: str, log: list[str], deep: bool = False) -> dict:
+    """#print axioms for every property theorem of `pid`; returns obligations/discharged.  With `deep` (thorough
+    tier) the compiled module of the property is also replayed by `leanchecker`, the toolchain's independent checker."""
     thms = property_theorems(pid)
     res = {"theorems": thms, "discharged": [], "bad": {}, "forbidden": grep_forbidden()}
+    if deep and thms:
+        r = subprocess.run(["lake", "env", "leanchecker", f"MosaikProofs.Properties.{pid}"], cwd=LEAN_DIR, capture_output=True, text=True)
+        res["leanchecker"] = "ok" if r.returncode == 0 else "FAILED"
+        if r.returncode != 0:
+            res["bad"]["leanchecker"] = (r.stdout + r.stderr)[-400:]
+            log.append("leanchecker: " + (r.stdout + r.stderr)[-2000:])
     if not thms:
         return res
     src = f"import MosaikProofs.Properties.{pid}\n" + "\n".join(f"#print axioms {t}" for t in thms) + "\n"
